@@ -163,12 +163,12 @@ def scalar_ir(v):
     if t == "s":
         return C("SStr", S(v[1]))
     if t == "dt":
-        if len(v) == 2:
+        if len(v) < 10:
             raise ValueError("textual datetime has no model form; pass components")
-        y, mo, d, h, mi, s, ns, off = v[1:9]
+        y, mo, d, h, mi, s, ns, off = v[2:10]
         return C("SDateTime", R("mkDT", R("mkDate", Zv(y), Zv(mo), Zv(d)), Zv(h), Zv(mi), Zv(s), Zv(ns), Zv(off)))
     if t == "d":
-        return C("SDate", R("mkDate", Zv(v[1]), Zv(v[2]), Zv(v[3])))
+        return C("SDate", R("mkDate", Zv(v[2]), Zv(v[3]), Zv(v[4])))
     raise ValueError("scalar_ir: %r" % (v,))
 
 
